@@ -9,7 +9,7 @@ are decided on the resulting terms, events and guard facts.
 """
 from env import Ob, Ctx
 from guards import block_facts, unref, Prover
-from terms import fmt, subterms, mk_phi, contains
+from terms import fmt, subterms, mk_phi, contains, PURE, callee_model_key
 from roles import place_path
 
 
@@ -117,6 +117,40 @@ def normalize_accesses(events):
     return out
 
 
+def normalize_range_chunks(events, env):
+    """A chunk of a range source that is computed in positions and mapped to values only when it is handed out
+    (`(start + b)..(start + e)` with `b..e` positions) is re-expressed as the access `range[b..e]`, so that the rules for
+    position extents (PROV / AMT / CLAMP / COMPLETE / NONEMPTY of slices) judge it; the value-space form
+    (`bv = b + start; bv..min(bv + n, end)`) keeps its own branches."""
+    import copy
+    R = env.R
+
+    def pos(t):
+        t = unref(t)
+        if t[0] == "bin" and t[1] == "Add":
+            for p_, s_ in ((t[2], t[3]), (t[3], t[2])):
+                s_ = unref(s_)
+                if s_[0] == "call" and s_[1] == "conv" and s_[2] and R.classify(s_[2][0])[1] in R.impl:
+                    return unref(p_), s_[2][0]
+        return None
+    out = []
+    for e in events:
+        if e.kind == "call" and e.info.get("model") == "Iterator::map" and e.args:
+            rg = unref(e.args[0])
+            if rg[0] == "agg" and rg[1].endswith("Range::Range") and len(rg[2]) == 2:
+                a, b = pos(rg[2][0]), pos(rg[2][1])
+                if a is not None and b is not None and a[1] == b[1]:
+                    e2 = copy.copy(e)
+                    e2.info = dict(e.info)
+                    e2.info["model"] = "index"
+                    e2.info["range_positions"] = True
+                    e2.args = (a[1], ("agg", "std::ops::Range::Range", (a[0], b[0])))
+                    out.append(e2)
+                    continue
+        out.append(e)
+    return out
+
+
 class Unit:
     def __init__(self, m1, world, kind, body, self_adt):
         self.m1 = m1
@@ -138,7 +172,7 @@ class Unit:
         for b in self.bodies:
             for e in env.flat_events(b, self_adt, world):
                 self.events.append(e)
-        self.events = normalize_accesses(self.events)
+        self.events = normalize_range_chunks(normalize_accesses(self.events), env)
         self.label = "%s|%s" % (world["name"], kind)
 
     def result(self):
@@ -698,6 +732,10 @@ def rule_clamp(env, shared):
                 L = m.canon(("call", "len", (a[0],)))
                 # len of the very slice being indexed
                 L2 = ("call", "len", (a[0],))
+                if e.info.get("range_positions"):
+                    # positions of a range source (normalize_range_chunks): the bound is the length of the range
+                    ul = unit_len(u)
+                    L = L2 = m.canon(ul) if ul is not None else L
                 ok1 = p.le(B, E)
                 ok2 = p.le(E, L) or p.le(E, L2)
                 if ok1 and ok2:
@@ -867,6 +905,37 @@ def rule_nonempty(env, shared):
                 out.append(Ob("NONEMPTY", key, "viol", u.body.file_line(), "cannot find where the chunk pull of %s builds its "
                               "NextChunk" % u.world["name"]))
                 continue
+            ret_ok = None
+            if kind == "ticket":
+                # judged on the return value as well (`(values.len() > 0).then_some(NextChunk {..})` builds the struct before
+                # the test): every way of returning Some carries `len(values) != 0` for the values it hands out
+                from guards import local_cases
+
+                def coll(t):
+                    t = unref(t)
+                    while t[0] in ("ref", "deref") or (t[0] == "call" and t[1] == "into_iter" and t[2]):
+                        t = unref(t[1] if t[0] != "call" else t[2][0])
+                    return t
+                somes = [c for c in (local_cases(ev, u.ctx, 0, True) or []) if c[0] == "Some"]
+                ret_ok = bool(somes)
+                for (_K, fs, v) in somes:
+                    pv = ev.payload(u.ctx, v) if v is not None else None
+                    vals = coll(pv[2][1]) if (pv is not None and pv[0] == "agg" and pv[1].endswith("NextChunk::NextChunk")
+                                              and len(pv[2]) == 2) else None
+                    okc = False
+                    for f in fs:
+                        if len(f) != 3:
+                            continue
+                        x = None
+                        if f[0] == "ne" and f[2] == ("int", 0):
+                            x = f[1]
+                        elif f[0] == "lt" and f[1] == ("int", 0):
+                            x = f[2]
+                        if x is not None and x[0] == "call" and x[1] == "len" and x[2] and vals is not None \
+                                and coll(x[2][0]) == vals:
+                            okc = True
+                    if not okc:
+                        ret_ok = False
             for (bi, s, agg, ub, uctx) in blocks:
                 loc = ub.file_line(s["loc"])
                 facts = [tuple(m.canon(x) if isinstance(x, tuple) else x for x in f) for f in block_facts(ev, uctx, bi)]
@@ -877,6 +946,9 @@ def rule_nonempty(env, shared):
                         if f[0] == "ne" and len(f) == 3 and f[2] == ("int", 0) and f[1][0] == "call" and f[1][1] == "len":
                             good = True
                             why = "built only when the collected buffer is not empty"
+                    if not good and ret_ok:
+                        good = True
+                        why = "returned only when the values handed out are not empty"
                 else:
                     B = m.canon(unref(agg[2][0]))
                     # the actual extent end(s) of the access
@@ -994,6 +1066,74 @@ def _same_counter(a, b):
     return zero in oa and zero in ob and inc(oa) and inc(ob)
 
 
+def _strip_place(t):
+    while t[0] in ("ref", "deref", "inner") or (t[0] == "call" and t[1] in ("deref_mut", "deref", "as_mut_slice", "as_slice")
+                                                 and t[2]):
+        t = t[1] if t[0] != "call" else t[2][0]
+    return t
+
+
+def _enumerated_store(env, pull, ctx, bi, inc_stmt, fields):
+    """`for slot in buf.iter_mut() { ..; *slot = Some(x); filled += 1 }`: the slot written in the round that increments the
+    counter from k to k + 1 is buf[k], provided that (1) `slot` is what the one `IterMut::next` call of the loop returned in
+    this round, over an iterator created outside the loop from the very buffer the chunk is built on, (2) the counter is
+    incremented only here, and (3) every round that continues the loop has passed the increment (no `continue` around it)."""
+    ev = env.ev
+    loops = [(h, lb) for (h, lb) in pull.natural_loops() if bi in lb]
+    if not loops:
+        return False
+    h, lb = min(loops, key=lambda x: len(x[1]))
+    dom = pull.dominators()
+    cnt = inc_stmt["rv"]["a"]["place"]["l"] if inc_stmt["rv"]["a"]["k"] in ("copy", "move") else None
+    if cnt is None:
+        return False
+    # (2) assignments of the counter inside the loop: only the result of this addition
+    tmp = inc_stmt["place"]["l"]
+    for x in lb:
+        for st in pull.blocks[x]["stmts"]:
+            if st["k"] == "assign" and st["place"]["l"] == cnt and not st["place"]["p"]:
+                rv = st["rv"]
+                src = rv.get("op", {}).get("place", {}) if rv["k"] == "use" else {}
+                if not (src.get("l") == tmp):
+                    return False
+    # (3) the increment dominates every source of a back edge of this loop
+    for (src, dst) in pull.back_edges():
+        if dst == h and src in lb and not (bi == src or bi in dom.get(src, set())):
+            return False
+    # (1) the store
+    its = [x for x in lb if pull.callee(x) is not None and not pull.callee(x).indirect
+           and pull.callee(x).trait == "std::iter::Iterator" and pull.callee(x).name == "next"
+           and ((pull.callee(x).self_ty or {}).get("adt") == "std::slice::IterMut")]
+    if len(its) != 1:
+        return False
+    bufs = {_strip_place(unref(f)) for f in fields}
+    for d in (dom.get(bi, set()) | {bi}) & set(lb):
+        for st in pull.blocks[d]["stmts"]:
+            if st is inc_stmt and d == bi:
+                break
+            if st["k"] != "assign" or [e["k"] for e in st["place"]["p"]] != ["deref"]:
+                continue
+            slot = unref(ev.local(ctx, st["place"]["l"]))
+            if slot[0] != "payload":
+                continue
+            call = unref(slot[1])
+            if not (call[0] == "ret" and call[1] == "std::iter::Iterator::next" and call[3] and call[3][-1] == (pull.def_, its[0])):
+                continue
+            it = _strip_place(unref(call[2][0]))
+            if it[0] == "call" and it[1] == "into_iter" and it[2]:
+                it = unref(it[2][0])
+            if not (it[0] == "ret" and it[1] == "std::slice::iter_mut" and it[2] and it[3]
+                    and it[3][-1][0] == pull.def_ and it[3][-1][1] not in lb):
+                continue
+            if _strip_place(unref(it[2][0])) not in bufs:
+                continue
+            val = unref(ev.rvalue(ctx, st["rv"]))
+            if val[0] == "agg" and val[1].endswith("Option::Some") and val[2] and "Iterator::next" in fmt(val[2][0]) \
+                    and unref(val[2][0]) != slot:
+                return True
+    return False
+
+
 def rule_exact(env, shared):
     """EXACT: the buffered chunk of the wrapper over an arbitrary iterator yields exactly the elements pulled for this
     chunk: slots 0..filled of the re-used buffer, `filled` counting one stored element per increment, iteration under
@@ -1056,6 +1196,8 @@ def rule_exact(env, shared):
                 idx = unref(ev.operand(ctx, t["args"][1]))
                 if idx == fields[fi] or _same_counter(idx, fields[fi]):
                     stored = True
+        if not stored:
+            stored = _enumerated_store(env, pull, ctx, bi, s, fields)
         somef = any(f[0] == "is_some" and f[2] is True and "Iterator::next" in fmt(f[1])
                     for f in block_facts(ev, ctx, bi))
         if stored and somef:
@@ -1073,6 +1215,16 @@ def rule_exact(env, shared):
         for f in block_facts(ev, ctx, bi):
             if f[0] == "ne" and len(f) == 3 and f[1] == fields[fi] and f[2] == ("int", 0):
                 good = True
+    if not good:
+        # judged on the return value: every way of returning Some lies under filled != 0 (`(filled > 0).then(..)`)
+        from guards import local_cases
+        somes = [c for c in (local_cases(ev, ctx, 0, True) or []) if c[0] == "Some"]
+
+        def nonzero(fs):
+            return any(len(f) == 3 and ((f[0] == "ne" and {f[1], f[2]} == {fields[fi], ("int", 0)}) or
+                                        (f[0] == "lt" and f[1] == ("int", 0) and f[2] == fields[fi]) or
+                                        (f[0] == "le" and f[1] == ("int", 1) and f[2] == fields[fi])) for f in fs)
+        good = bool(somes) and all(nonzero(fs) for (_K, fs, _v) in somes)
     out.append(Ob("EXACT", k2, "ok" if good else "viol", loc,
                   "a chunk is returned only when at least one element was stored" if good else
                   "the ticket puller can return Some with zero stored elements (empty chunk)", True))
@@ -1112,6 +1264,28 @@ def rule_exact(env, shared):
                                     okk = True
                         if not okk:
                             bad = (nb.file_line(l), fmt(idx))
+        # reads through `get` / `get_mut`: in bounds of the *filled prefix* `buf[..filled]` by construction, or of the whole
+        # buffer under the guard consumed < filled
+        for bi, t, c in nb.calls():
+            if nb.blocks[bi]["cleanup"] or c.indirect or PURE.get(callee_model_key(c)) != "slice_get" or len(t["args"]) != 2:
+                continue
+            nsites += 1
+            base = unref(ev.operand(nctx, t["args"][0]))
+            while base[0] in ("ref", "deref", "inner"):
+                base = unref(base[1])
+            idx = unref(ev.operand(nctx, t["args"][1]))
+            okk = False
+            if idx[0] == "field" and idx[2] == ci:
+                if base[0] == "call" and base[1] == "index" and len(base[2]) == 2:
+                    rg = unref(base[2][1])
+                    if rg[0] == "agg" and rg[1].endswith("ops::RangeTo::RangeTo") and len(rg[2]) == 1:
+                        n_ = unref(rg[2][0])
+                        okk = n_[0] == "field" and n_[2] == fi and n_[1] == idx[1]
+                for f in block_facts(ev, nctx, bi):
+                    if f[0] == "lt" and len(f) == 3 and f[1] == idx and f[2][0] == "field" and f[2][2] == fi and f[2][1] == idx[1]:
+                        okk = True
+            if not okk:
+                bad = (nb.file_line(t["loc"]), fmt(idx))
         if nsites == 0:
             out.append(Ob("EXACT", k3, "viol", nb.file_line(), "no buffer read found in the chunk iterator's next"))
         elif bad:
